@@ -579,23 +579,39 @@ func (l *Lexer) SkipStreamEOL() error {
 
 // ReadBytes reads exactly n bytes from the underlying reader.
 // Used for reading binary stream data where tokenization is not appropriate.
+//
+// n usually comes from a /Length entry in the file, so it is not trusted with a
+// single allocation up front: the buffer grows in chunks as data really arrives,
+// and a length larger than the remaining input ends in the usual EOF error.
 func (l *Lexer) ReadBytes(n int) ([]byte, error) {
-	data := make([]byte, n)
-	totalRead := 0
+	if n < 0 {
+		return nil, fmt.Errorf("invalid byte count: %d", n)
+	}
 
-	for totalRead < n {
-		bytesRead, err := l.reader.Read(data[totalRead:])
-		totalRead += bytesRead
+	const chunkSize = 1 << 20
+	initial := n
+	if initial > chunkSize {
+		initial = chunkSize
+	}
+	data := make([]byte, 0, initial)
+
+	for len(data) < n {
+		want := n - len(data)
+		if want > chunkSize {
+			want = chunkSize
+		}
+		start := len(data)
+		data = append(data, make([]byte, want)...)
+
+		bytesRead, err := io.ReadFull(l.reader, data[start:])
 		l.pos += int64(bytesRead)
+		data = data[:start+bytesRead]
 
-		if err == io.EOF && totalRead < n {
-			return data[:totalRead], fmt.Errorf("unexpected EOF: expected %d bytes, got %d", n, totalRead)
+		if err == io.EOF || err == io.ErrUnexpectedEOF {
+			return data, fmt.Errorf("unexpected EOF: expected %d bytes, got %d", n, len(data))
 		}
-		if err != nil && err != io.EOF {
-			return data[:totalRead], err
-		}
-		if err == io.EOF {
-			break
+		if err != nil {
+			return data, err
 		}
 	}
 
